@@ -141,6 +141,7 @@ def compare_clipped(ctx, source, sel, out, what):
                                   f"({oj}, {oi}) {'(selected)' if selected else '(cannot hold missing)'} "
                                   f"holds {orig!r}")
                     else:
+                        ctx.label(f"blanked_inside_window:{var['dtype']}")
                         ctx.check(_missing(got), "C08.outside_blanked",
                                   lambda: f"{what}: {name}{pos} = {got!r} survives although {kind} cell "
                                   f"({oj}, {oi}) is not selected")
